@@ -391,6 +391,32 @@ def wrapper_call_sites(facts, wr):
     return found
 
 
+def under_isinstance(call, cls):
+    """`isinstance(R, cls) and ... R.eval(...) ...` / `... if isinstance(R, cls) else ...`: the evaluation only happens for a
+    receiver R of that class (R compared as written, within one expression)."""
+    if not (isinstance(call, ast.Call) and isinstance(call.func, ast.Attribute) and call.func.attr == 'eval'):
+        # a statement: every evaluation inside it
+        calls = [n for n in ast.walk(call) if isinstance(n, ast.Call) and isinstance(n.func, ast.Attribute) and n.func.attr == 'eval'] if isinstance(call, ast.AST) else []
+        return bool(calls) and all(under_isinstance(c, cls) for c in calls)
+    recv = ast.dump(call.func.value)
+
+    def is_test(t):
+        return (isinstance(t, ast.Call) and isinstance(t.func, ast.Name) and t.func.id == 'isinstance' and len(t.args) == 2 and
+                ast.dump(t.args[0]) == recv and isinstance(t.args[1], ast.Name) and t.args[1].id == cls)
+    child, par = call, getattr(call, '_parent', None)
+    while par is not None and isinstance(par, ast.expr):
+        if isinstance(par, ast.BoolOp) and isinstance(par.op, ast.And):
+            idx = next((k for k, v in enumerate(par.values) if v is child), None)
+            if idx is not None and any(is_test(v) for v in par.values[:idx]):
+                return True
+        if isinstance(par, ast.IfExp) and par.body is child and is_test(par.test):
+            return True
+        if isinstance(par, (ast.Lambda, ast.ListComp, ast.GeneratorExp, ast.SetComp, ast.DictComp)):
+            return False
+        child, par = par, getattr(par, '_parent', None)
+    return False
+
+
 def check_auipc(report, facts, rule_adj, rule_sib):
     """R-auipc.  (a) no additive correction is applied to the *result* of evaluating an immediate that may be %hi/%lo
     (not linear in its argument); the correction belongs in the position argument.  (b) every site that evaluates the
@@ -455,7 +481,7 @@ def check_auipc(report, facts, rule_adj, rule_sib):
             report.ok(rule_sib, where + ': predicate is never applied to an is_auipc_jump item')
             continue
         f_ = s.path.facts.get(s.recv)
-        if f_ and 'Arithmetic' in f_['isa']:
+        if (f_ and 'Arithmetic' in f_['isa']) or under_isinstance(s.node, 'Arithmetic'):
             # a plain arithmetic expression does not depend on the evaluation point at all
             report.ok(rule_sib, where + ': receiver is known to be Arithmetic (position-independent)')
             continue
